@@ -153,8 +153,11 @@ def load_theory_cache(filename, username="master"):
     timestamp = os.path.getmtime(user_file(filename, username))
 
     if 'timestamp' in cache and timestamp == cache['timestamp']:
-        # No need to update cache
-        return cache
+        # The file itself is unchanged. The parsed content is still valid only
+        # if no file among the (transitive) imports has changed since.
+        if all(os.path.getmtime(user_file(name, username)) == stamp
+               for name, stamp in cache['import_stamps']):
+            return cache
 
     # Load all required macros and methods for this file.
     # Make table for this later. Importing these modules may load other
@@ -171,18 +174,30 @@ def load_theory_cache(filename, username="master"):
         from imperative import imp
     theory.thy = prev_thy
 
-    # Load all imported theories
-    depend_list = get_import_order(cache['imports'], username)
+    # Read the file first: its list of imports may have changed.
+    data = load_json_data(filename, username)
+    cache['imports'] = data['imports']
+    check_topological_sort(username)
+
+    # Bring all imported theories up to date. This may in turn change their
+    # lists of imports, so repeat until the import order is stable.
+    while True:
+        depend_list = get_import_order(cache['imports'], username)
+        for prev_name in depend_list:
+            load_theory_cache(prev_name, username)
+        if depend_list == get_import_order(cache['imports'], username):
+            break
+    import_stamps = [(prev_name, theory_cache[username][prev_name]['timestamp'])
+                     for prev_name in depend_list]
 
     with theory.fresh_theory():
         for prev_name in depend_list:
-            prev_cache = load_theory_cache(prev_name, username)
+            prev_cache = theory_cache[username][prev_name]
             for item in prev_cache['content']:
                 if item.error is None:
                     theory.thy.unchecked_extend(item.get_extension())
 
         # Use this theory to parse the content of current theory
-        data = load_json_data(filename, username)
         content = []
         for index, item in enumerate(data['content']):
             item = items.parse_item(item)
@@ -201,6 +216,7 @@ def load_theory_cache(filename, username="master"):
     # file was read and parsed completely.
     cache['content'] = content
     cache['timestamp'] = timestamp
+    cache['import_stamps'] = import_stamps
     return cache
 
 def query_item_index(username, filename, ext_ty, name):
